@@ -41,14 +41,15 @@ Definition doc_cpu_entries (c : cpu) : symtab :=
     flag [111; 118; 101; 114; 102; 108; 111; 119]%N (fV p) 64;
     flag [110; 101; 103; 97; 116; 105; 118; 101]%N (fN p) 128 ].
 
-(* ram(a): the byte at address a (mod 65536); ram16(a): the little-endian word at a.  A word read at $FFFF
-   leaves the memory: the process aborts *)
+(* ram(a): the byte at address a (mod 65536), for EVERY a, $FFFF included; ram16(a): the little-endian word at
+   a, for every a up to $FFFE.  A word at $FFFF would leave the memory: it has no value (the assertion cannot be
+   evaluated and fails) *)
 Definition doc_ram_fn (m : ram) (word : bool) (arg : eres) : eres :=
   match arg with
   | EVal (Some (SNum a)) =>
       let a16 := a mod 65536 in
       if word then
-        if a16 =? 65535 then EPanic
+        if a16 =? 65535 then EVal None
         else EVal (Some (SNum (ram_read m a16 + 256 * ram_read m (a16 + 1))))
       else EVal (Some (SNum (ram_read m a16)))
   | EVal _ => EVal None
